@@ -183,14 +183,20 @@ if __name__ == "__main__":
 #              ast.unparse text), interpreted over the abstraction by the hand-written tables in Model/ValidationSkel.v
 # tokens:      ("raise","") ("return","") ("call",f) ("try","except T: body") ("if","") <test> ("then","") <stmts>
 #              ("else","") <stmts> ("end","")   ("for","target in iter") <stmts> ("end","")
+#              ("mutate", target)  a store into <x>.data[...] / <x>.basis_id, `del <x>.data[...]`, <x>.data.insert/append(...)
+#              ("continue","")
 #              test: ("atom",t) | ("not","") e | ("and","") e e | ("or","") e e | ("any",var) ("in",coll) e
 # --------------------------------------------------------------------------------------
 SKEL_TARGETS = [
     ("cutting_decomposition.py", "partition_problem"),
     ("cutting_reconstruction.py", "reconstruct_expectation_values"),
     ("utils/simulation.py", "simulate_statevector_outcomes"),
+    # the three entry points that can modify their argument (inplace=True): position of every store relative to every raise
+    ("cutting_decomposition.py", "partition_circuit_qubits"),
+    ("cutting_decomposition.py", "cut_gates"),
+    ("qpd/decompose.py", "decompose_qpd_instructions"),
 ]
-WATCH = {"_partition_labels_from_circuit", "partition_circuit_qubits", "separate_circuit", "decompose_observables",
+WATCH = {"from_instruction", "_partition_labels_from_circuit", "partition_circuit_qubits", "separate_circuit", "decompose_observables",
          "_validate_qpd_instructions", "_decompose_qpd_instructions", "generate_qpd_weights", "cut_gates"}
 
 
@@ -230,6 +236,33 @@ def _calls_watched(s):
     return [nm for _, _, nm in sorted(names)]
 
 
+def _is_data_store(t):
+    """<x>.data[...]  or  <x>.basis_id  as an assignment / deletion target"""
+    if isinstance(t, ast.Subscript) and isinstance(t.value, ast.Attribute) and t.value.attr == "data":
+        return True
+    return isinstance(t, ast.Attribute) and t.attr == "basis_id"
+
+
+def _mutations(s):
+    out = []
+    targets = []
+    if isinstance(s, ast.Assign):
+        targets = s.targets
+    elif isinstance(s, (ast.AugAssign, ast.AnnAssign)):
+        targets = [s.target]
+    elif isinstance(s, ast.Delete):
+        targets = s.targets
+    for t in targets:
+        for el in (t.elts if isinstance(t, (ast.Tuple, ast.List)) else [t]):
+            if _is_data_store(el):
+                out.append(ast.unparse(el))
+    for n in ast.walk(s):
+        if (isinstance(n, ast.Call) and isinstance(n.func, ast.Attribute) and n.func.attr in ("insert", "append", "pop", "remove", "clear", "extend")
+                and isinstance(n.func.value, ast.Attribute) and n.func.value.attr == "data"):
+            out.append(ast.unparse(n.func))
+    return out
+
+
 def _stmts_tokens(stmts):
     out = []
     for s in stmts:
@@ -262,9 +295,15 @@ def _stmts_tokens(stmts):
                 out.append(("try", f"except {ast.unparse(h.type)}: " + "; ".join(ast.unparse(b) for b in s.body)))
         elif isinstance(s, (ast.With, ast.AsyncWith)):
             out += _stmts_tokens(s.body)
+        elif isinstance(s, ast.Continue):
+            out.append(("continue", ""))
+        elif isinstance(s, ast.Break):
+            raise SkelShape("break inside a skeleton target")
         else:
             for nm in _calls_watched(s):
                 out.append(("call", nm))
+            for tgt in _mutations(s):
+                out.append(("mutate", tgt))
             for ch in ast.walk(s):
                 if isinstance(ch, (ast.Raise, ast.Return)) and ch is not s:
                     raise SkelShape("raise/return in an unrecognised position")
